@@ -342,6 +342,14 @@ Section Grouped.
       rewrite concat_app. simpl. rewrite app_nil_r, map_app. symmetry. apply first_keys_app.
   Qed.
 
+  Theorem keys_aggregate_full ps :
+    map fst (g_aggregate keqb key A ps) = first_keys keqb (map key (concat ps))
+    /\ NoDup (first_keys keqb (map key (concat ps)))
+    /\ (forall k, In k (first_keys keqb (map key (concat ps))) <-> In k (map key (concat ps))).
+  Proof.
+    split; [apply keys_aggregate|split; [apply NoDup_first_keys|intros k; apply In_first_keys]].
+  Qed.
+
   Lemma rows_of_app k a b : rows_of keqb key k (a ++ b) = rows_of keqb key k a ++ rows_of keqb key k b.
   Proof. apply filter_app. Qed.
 
@@ -458,5 +466,13 @@ Section Grouped.
     induction H as [|x y G H' HR HF IH].
     - reflexivity.
     - destruct x, y, HR as [H1 H2]. simpl in *. subst. reflexivity.
+  Qed.
+
+  Theorem partition_independent_exact :
+    agg_laws_ne A eq eq ->
+    forall ps, g_result A (g_aggregate keqb key A ps) = g_result A (g_aggregate keqb key A [concat ps]).
+  Proof.
+    intros L ps. rewrite (aggregate_hom_exact L ps), (aggregate_hom_exact L [concat ps]).
+    simpl. rewrite app_nil_r. reflexivity.
   Qed.
 End Grouped.
